@@ -15,7 +15,7 @@ import (
 // (stdout and the error text `evy run` writes, text before a `cls` dropped,
 // final newline ignored). This is the property oracle against the definition.
 
-type docExample struct {
+type c13docExample struct {
 	File     string
 	Line     int
 	Code     string
@@ -24,13 +24,13 @@ type docExample struct {
 	WantErr  bool
 }
 
-func extractDocExamples(path string) ([]docExample, error) {
+func extractDocExamples(path string) ([]c13docExample, error) {
 	b, err := os.ReadFile(path)
 	if err != nil {
 		return nil, err
 	}
-	var out []docExample
-	var cur *docExample
+	var out []c13docExample
+	var cur *c13docExample
 	mode := ""
 	var buf []string
 	for i, line := range strings.Split(string(b), "\n") {
@@ -38,7 +38,7 @@ func extractDocExamples(path string) ([]docExample, error) {
 		case mode == "" && strings.HasPrefix(line, "### "):
 			cur = nil
 		case mode == "" && (line == "```evy" || line == "```evy:err"):
-			cur = &docExample{File: filepath.Base(path), Line: i + 1, WantErr: line == "```evy:err"}
+			cur = &c13docExample{File: filepath.Base(path), Line: i + 1, WantErr: line == "```evy:err"}
 			mode, buf = "code", nil
 		case mode == "" && line == "```evy:input" && cur != nil:
 			mode, buf = "input", nil
@@ -65,7 +65,7 @@ func extractDocExamples(path string) ([]docExample, error) {
 	return out, nil
 }
 
-func repoRoot() string {
+func c13repoRoot() string {
 	root := os.Getenv("VERIF_ROOT")
 	if root == "" {
 		root = "/verif"
@@ -102,7 +102,7 @@ func shownOutput(out RunOutcome) string {
 }
 
 func c13DocExamples(cfg Config, r *Result) {
-	root := repoRoot()
+	root := c13repoRoot()
 	total := 0
 	for _, f := range []string{"docs/builtins.md", "docs/spec.md", "docs/syntax-by-example.md"} {
 		exs, err := extractDocExamples(filepath.Join(root, f))
